@@ -95,7 +95,7 @@ func init() {
 			"Phase 'sql' drives the same comparison through the engine over tables whose key column mixes Go numeric types and numeric strings (small integral and dyadic values, where every engine path is defined): WHERE =,<,>=; IN (also lists of 9..14 literals); [NOT] BETWEEN with number and string bounds; ORDER BY; equi-joins (hash path) and equi-joins with an extra conjunct (nested-loop path) must keep / order / pair exactly what the exact order says. Phase 'triples' = ALL same-kind triples (thorough) or a seeded 10% sample (quick): transitivity. Non-trivial = a pair of two different values; distinct = distinct (type,value) pair.",
 		Assumptions: []string{
 			"'within the exactly-representable range': a mixed-type number pair is asserted when both values are exactly representable as float64 (|v| <= 2^53) or both are integers; same-type pairs are asserted over the type's full range",
-			"number vs string pairs are asserted for numbers whose decimal text has no exponent",
+			"number vs string pairs are asserted for every number below 1e15 in magnitude; the decimal text is the plain positional one (1000000, 0.0000001), never an exponent form",
 		},
 		MinNontrivial: 1000,
 		Floor:         []string{"num-num.same-type", "num-num.mixed-type", "num-num.signed-unsigned", "num-num.int-float", "str-str", "num-str", "str-num", "triple.num", "triple.str", "sql.where", "sql.in", "sql.in.long", "sql.between", "sql.order", "sql.join.hash", "sql.join.loop", "sql.join.mixed-type", "sql.join.num-str"},
@@ -127,11 +127,6 @@ func isUnsigned(v any) bool {
 func exactDecimal(v any) string {
 	r := val.Rat(v)
 	if r == nil {
-		return ""
-	}
-	// numbers whose conventional text carries an exponent (1e+06, 2.5e-07) are
-	// outside the asserted number-vs-string domain
-	if strings.ContainsAny(fmt.Sprintf("%v", v), "eE") {
 		return ""
 	}
 	if r.IsInt() {
@@ -313,8 +308,8 @@ func c15Triples(c *fw.Case) {
 var c15SQLNums = []any{int(1), int8(1), uint(1), float64(1), uint8(200), float64(200), int16(200), float32(2), int64(2), uint64(3), int32(3), float64(1.5), float32(1.5), int(-1), float64(-1), int8(-1),
 	uint16(65535), int32(65535), float64(65535), uint32(70000), int(70000), float64(0), int(0), uint8(0), float32(0.25), float64(0.25), int64(42), float64(42), uint(42),
 	// integers that print with an exponent as floats: here they come as integer types only
-	int(1000003), int64(1000003), uint32(1000003), int(4000000), uint64(4000000)}
-var c15SQLStrs = []any{"1", "200", "3", "42", "1.5", "-1", "x", "0", "65535", "2"}
+	int(1000003), int64(1000003), uint32(1000003), int(4000000), uint64(4000000), float64(1000003), float64(4000000), float64(1500000)}
+var c15SQLStrs = []any{"1", "200", "3", "42", "1.5", "-1", "x", "0", "65535", "2", "1000003", "4000000", "1500000", "1e+06"}
 
 // c15SQL: the comparison as WHERE, IN, ORDER BY and joins use it.
 func c15SQL(c *fw.Case) {
